@@ -14,5 +14,5 @@ CONSTANTS
   EacTimer = FALSE
   FixWithdraw = FALSE
 VIEW RView
-INVARIANTS NoMissingNoStale ExtraOnlyRemoved FileInfoOk EacOk CountsOk TableMirror
+INVARIANTS KfWitness NoMissingNoStale ExtraOnlyRemoved FileInfoOk EacOk CountsOk TableMirror
 CHECK_DEADLOCK FALSE
